@@ -29,7 +29,7 @@ ANCHORS = [("leuvenmapmatching/matcher/base.py", "BaseMatcher._build_node_path")
            ("leuvenmapmatching/matcher/base.py", "LatticeColumn.prune"),
            ("leuvenmapmatching/matcher/base.py", "BaseMatching.update")]
 FLOORS = {"cases_compared_across_processes": 800, "cases_with_two_final_candidates": 400, "permutations_judged": 1500,
-          "final_column_with_nonemitting_layer": 40, "exact_tie_in_final_column": 50, "string_label_cases": 300}
+          "final_column_with_nonemitting_layer": 40, "exact_tie_in_final_column": 50, "string_label_cases": 300, "mirror_loop_cases": 300, "nonemitting_state_with_exactly_tied_predecessors": 100}
 ASSUMPTIONS = ["hash-seed clause: canonical results (returned states, index, keys and log-probabilities of the best path) must be IDENTICAL across processes",
                "permutation clause: index and best probability equal (1e-9); paths may differ only when their totals are equal to 1e-12 (exact tie)"]
 HASHSEEDS = ["0", "1", "2", "3", "11", "17", "42", "99", "123", "1000", "31337", "4242"]
@@ -40,7 +40,55 @@ def shard_envs(tier):
     return [{"PYTHONHASHSEED": s} for s in HASHSEEDS[:k]]
 
 
+def gen_mirror_case(rng):
+    """mirror-symmetric one-way merges with a loop back into ONE side: two start states reach the merged road with bit-equal
+    probability, the observation sits on the axis of symmetry; whatever breaks the tie must not depend on the hash seed."""
+    h = rng.choice([1.0, 2.0, 3.0])
+    back = rng.choice([2.0, 3.0, 4.0])
+    L = rng.choice([4.0, 6.0, 8.0])
+    pts = {"u": (h, -back), "d": (-h, -back), "m": (0.0, 0.0), "e": (0.0, L), "x": (2 * h, -2 * back), "y": (-2 * h, -2 * back),
+           "f": (0.0, L + 3.0)}
+    names = list(pts)
+    labs = rng.sample(range(1, 60), len(names))
+    if rng.random() < 0.5:
+        labs = ["N%d" % v for v in labs]
+    lab = dict(zip(names, labs))
+    edges = [("u", "m"), ("d", "m"), ("m", "e")]
+    loop_to = rng.choice(["u", "d"])
+    edges.append(("e", loop_to))
+    edges.append((loop_to, "x" if loop_to == "u" else "y"))
+    if rng.random() < 0.5:
+        edges.append(("e", "f"))
+    if rng.random() < 0.4:
+        edges += [("x", "u"), ("y", "d")]
+    if rng.random() < 0.3:
+        edges += [("m", "u"), ("m", "d")]
+    rng.shuffle(edges)
+    nodes = [[lab[k], [v[0], v[1]]] for k, v in pts.items()]
+    rng.shuffle(nodes)
+    m = {"nodes": nodes, "edges": [[lab[a], lab[b]] for a, b in edges], "latlon": False, "kind": "mirror_loop"}
+    t0 = rng.choice([0.25, 0.5, 0.75])
+    tr = [[0.0, -back * t0]]                       # on the axis, equidistant from u->m and d->m
+    tgt = pts[loop_to]
+    a = rng.choice([0.3, 0.5, 0.7])
+    tr.append([pts["e"][0] + a * (tgt[0] - pts["e"][0]) + rng.choice([0.0, 0.1]), pts["e"][1] + a * (tgt[1] - pts["e"][1])])
+    out = pts["x" if loop_to == "u" else "y"]
+    tr.append([(tgt[0] + out[0]) / 2, (tgt[1] + out[1]) / 2])
+    if rng.random() < 0.3:
+        tr.insert(1, [0.0, L * rng.choice([0.25, 0.5])])
+    cfg = gen.gen_cfg(rng, ne=True, width="maybe", cut=False)
+    cfg["obs_noise"] = rng.choice([0.5, 1.0, 2.0])
+    cfg["dist_noise"] = rng.choice([None, 5.0, 10.0]) if cfg["family"] == "distance" else None
+    cfg["max_dist_init"] = rng.choice([None, back + h])
+    cfg["max_dist"] = rng.choice([None, None, 1.5, 3.0])
+    cfg["min_prob_norm"] = rng.choice([None, 0.0001])
+    cfg["restrained_ne"] = rng.random() < 0.5
+    return {"map": m, "trace": tr, "cfg": cfg, "unique": rng.random() < 0.5, "mirror": True}
+
+
 def gen_case(rng, i, tier):
+    if i % 6 == 1:
+        return gen_mirror_case(rng)
     case = mcase.gen_mcase(rng, width="maybe", tighten_p=0.0, sparse_p=0.3, max_obs=8,
                            kinds=("random", "grid", "grid", "chain", "chain_dyadic"), labels=("int", "str", "str", "gap", "strrev"),
                            hostile=True)
@@ -88,6 +136,14 @@ def check_case(ctx, case):
     # statistics and the permutation clause only in the first process set
     if any(isinstance(l, str) for l, _ in case["map"]["nodes"]):
         ctx.count("string_label_cases")
+    if case.get("mirror"):
+        ctx.count("mirror_loop_cases")
+        if mt.lattice:
+            for col in mt.lattice.values():
+                for layer in col.o[1:]:
+                    for e in layer.values():
+                        if e.prev_other and any(abs(q.logprob - next(iter(e.prev)).logprob) == 0 for q in e.prev_other):
+                            ctx.count("nonemitting_state_with_exactly_tied_predecessors")
     if not c["empty"]:
         col = mt.lattice[c["idx"]]
         livefinal = [x for x in col.values_all() if not x.stop]
